@@ -47,7 +47,7 @@ def parser_conformance(ctx):
     import conf
     out = ctx.sub("parse")
     r = ctx.vh(["parseobs", "-out", out, "-seed", ctx.seed, "-shards", 16, "-ntexts", ctx.pick(3000, 120000), "-nfile", ctx.pick(1200, 40000),
-                "-klen", ctx.pick(2, 3), "-corpus", conf.CORPUS, "-nrand", ctx.pick(40, 300), "-nexpr", ctx.pick(10, 60)])
+                "-klen", ctx.pick(2, 3), "-corpus", conf.CORPUS, "-nrand", ctx.pick(40, 300), "-nexpr", ctx.pick(10, 60), "-ntok", ctx.pick(60, 400)])
     log(r.stdout.strip().splitlines()[-1])
     shards = sorted(glob.glob(os.path.join(out, "parse-*.json")))
     results = run_tlc_shards(ctx, "ConfParse.tla", "ConfParse.cfg", shards, timeout=ctx.pick(600, 3000), extra=["-continue"])
@@ -75,6 +75,31 @@ def parser_conformance(ctx):
     ctx.cov["evaluations"] += n
     if trees < ctx.pick(800, 8000):
         raise Inconclusive("too few texts that parse: %d" % trees)
+    # from the syntax tree to the grammar's symbols and rules: the visitors vs SymTab.tla (same observations)
+    results = run_tlc_shards(ctx, "ConfSymTab.tla", "ConfSymTab.cfg", shards, timeout=ctx.pick(600, 3000), extra=["-continue"])
+    require_clean(results)
+    add_tlc_cov(ctx, results, "symbols, token codes, tags, precedence and rule precedence built from real syntax trees vs the model (SymTab.tla / ConfSymTab.tla)")
+    judged = okj = 0
+    seen = 0
+    for sf, res in results:
+        obs = json.load(open(sf))
+        judged += sum(1 for o in obs if o["ast"]["ok"] and o["sym"]["outcome"] in ("ok", "undef", "precundef"))
+        okj += sum(1 for o in obs if o["ast"]["ok"] and o["sym"]["outcome"] == "ok")
+        for name, vars_, txt in res.violations:
+            if seen >= 5:
+                break
+            seen += 1
+            o = obs[int(vars_["m"]) - 1]
+            key = "symtab:%s:%r" % (name, o["text"])
+            d = ctx.replay_dir(key)
+            open(os.path.join(d, "input.y"), "w").write(o["text"])
+            json.dump({"property": "C10", "kind": "symtab", "invariant": name, "obs": o}, open(os.path.join(d, "meta.json"), "w"), indent=1)
+            ctx.violation(key, d, "the grammar built from %r differs from the model SymTab.tla (%s): real outcome %s, symbols %s, rules %s" % (
+                o["text"][:300], name, o["sym"]["outcome"], json.dumps(o["sym"]["symbols"])[:500], json.dumps(o["sym"]["rules"])[:300]))
+    ctx.cov["symtab_judged"] = judged
+    ctx.cov["symtab_grammars_built"] = okj
+    if okj < ctx.pick(300, 3000):
+        raise Inconclusive("too few texts whose grammar was built: %d" % okj)
 
 
 def run(ctx, replay):
